@@ -1076,7 +1076,7 @@ func (e *Exec) runFrom(st *State, b *ssa.BasicBlock, from int) {
 			}
 		}
 		if call, ok := ins.(*ssa.Call); ok {
-			if f := call.Call.StaticCallee(); f != nil && e.inline[f.String()] && len(f.Blocks) > 0 {
+			if f := call.Call.StaticCallee(); e.shouldInline(f, len(st.conts)) {
 				e.inlineCall(st, b, i, call, f)
 				return
 			}
@@ -1087,7 +1087,46 @@ func (e *Exec) runFrom(st *State, b *ssa.BasicBlock, from int) {
 	}
 }
 
+// shouldInline: functions named by an inline directive, and functions of the repository that carry no contract, have
+// no loop and are not the unit itself (a helper extracted by a refactoring is verified as part of its callers; the
+// evidence lists it).
+func (e *Exec) shouldInline(f *ssa.Function, depth int) bool {
+	if f == nil || len(f.Blocks) == 0 {
+		return false
+	}
+	if e.inline[f.String()] {
+		return true
+	}
+	if e.cs == nil || f == e.fn || depth >= 4 || f.Pkg == nil || e.initMode {
+		return false
+	}
+	path := f.Pkg.Pkg.Path()
+	if !strings.HasPrefix(path, modPrefix) || strings.HasPrefix(path, modPrefix+"/logging") {
+		return false
+	}
+	if _, ok := e.cs.Funcs[f.String()]; ok {
+		return false
+	}
+	if _, ok := e.externs[f.String()]; ok {
+		return false
+	}
+	if strings.HasSuffix(f.String(), ".init") || f.Synthetic != "" {
+		return false
+	}
+	for _, b := range f.Blocks {
+		for _, p := range b.Preds {
+			if b.Dominates(p) {
+				return false // a loop: needs a contract with invariants
+			}
+		}
+	}
+	return true
+}
+
 func (e *Exec) inlineCall(st *State, b *ssa.BasicBlock, i int, call *ssa.Call, f *ssa.Function) {
+	if !e.inline[f.String()] {
+		e.applied["callee without contract verified inline: "+f.String()]++
+	}
 	for k, p := range f.Params {
 		a := call.Call.Args[k]
 		st.vals[p] = e.val(st, a)
@@ -1197,6 +1236,20 @@ func (e *Exec) modifiedHeaps(h *ssa.BasicBlock) []string {
 		if !e.inLoop[h.Index][b.Index] {
 			continue
 		}
+		e.blockEffects(b, set, 0)
+	}
+	var out []string
+	for k := range set {
+		out = append(out, k)
+	}
+	sort.Strings(out)
+	return out
+}
+
+// blockEffects adds the heaps the instructions of a block may write; calls that are verified inline contribute the
+// effects of the callee's body.
+func (e *Exec) blockEffects(b *ssa.BasicBlock, set map[string]bool, depth int) {
+	{
 		for _, ins := range b.Instrs {
 			switch x := ins.(type) {
 			case *ssa.Store:
@@ -1228,18 +1281,18 @@ func (e *Exec) modifiedHeaps(h *ssa.BasicBlock) []string {
 					el := x.Call.Args[0].Type().Underlying().(*types.Slice).Elem()
 					set[e.sorts.HeapSlice(e.sorts.SortOf(el))] = true
 				}
+				if f := x.Call.StaticCallee(); e.shouldInline(f, depth) && depth < 4 {
+					for _, cb := range f.Blocks {
+						e.blockEffects(cb, set, depth+1)
+					}
+					continue
+				}
 				for _, hn := range e.calleeEffects(x) {
 					set[hn] = true
 				}
 			}
 		}
 	}
-	var out []string
-	for k := range set {
-		out = append(out, k)
-	}
-	sort.Strings(out)
-	return out
 }
 
 // calleeEffects: heaps a contracted call may change (havoc, modifies, model-field updates, assigned locations).
@@ -2758,7 +2811,7 @@ func (e *Exec) tryMerge(st *State, b *ssa.BasicBlock, iff *ssa.If) bool {
 			case *ssa.Store, *ssa.MapUpdate, *ssa.If, *ssa.Return, *ssa.Panic, *ssa.Alloc, *ssa.MakeSlice, *ssa.MakeMap, *ssa.Defer, *ssa.Phi:
 				return false
 			case *ssa.Call:
-				if f := x.Call.StaticCallee(); f != nil && e.inline[f.String()] {
+				if f := x.Call.StaticCallee(); e.shouldInline(f, 0) {
 					return false
 				}
 				key := ""
